@@ -88,7 +88,7 @@ func main() {
 									primary := common.PrimaryOf(t.Log, v.StartTS)
 									cause := false
 									for _, r := range t.Log {
-										if r.Client == 0 && (r.Dev == txnh.DevDropReq || r.Dev == txnh.DevDropResp) && common.IsCommitPoint(r, primary) {
+										if r.Client == 0 && txnh.LostMessage(r.Dev) && common.IsCommitPoint(r, primary) {
 											cause = true
 										}
 									}
